@@ -126,6 +126,28 @@ class State:
         self.heap[c] = content
         return c
 
+    def getcell(self, cell):
+        c = self.heap[cell]
+        if isinstance(c, View):
+            return c.get(self)
+        return c
+
+    def setcell(self, cell, val):
+        c = self.heap.get(cell)
+        if isinstance(c, View):
+            c.set(self, val)
+        else:
+            self.heap[cell] = val
+
+
+class View:
+    """a heap cell that is a window onto a location inside another value (e.g. d[k1][k2]):
+    reads and writes go through to the parent, so all aliases stay coherent"""
+
+    def __init__(self, get, set):
+        self.get = get
+        self.set = set
+
 
 class Out:
     """outcome of executing a statement list"""
@@ -190,16 +212,40 @@ class SX:
         self.cur_func = None
         self.warnings = []
         self.call_depth = 0
+        self._qcache = {}
+        self.keep_states = False
         from . import builtins as B
 
         self.B = B
 
     # ------------------------------------------------------------------ utilities
+    def _quantified(self, e):
+        k = e.get_id()
+        r = self._qcache.get(k)
+        if r is None:
+            r = False
+            stack = [e]
+            seen = set()
+            while stack:
+                x = stack.pop()
+                if x.get_id() in seen:
+                    continue
+                seen.add(x.get_id())
+                if z3.is_quantifier(x):
+                    r = True
+                    break
+                stack.extend(x.children())
+            self._qcache[k] = (e, r)
+            return r
+        return r[1]
+
     def feasible(self, st, cond=None):
+        # path pruning only: quantified hypotheses are left out (fewer hypotheses = never fewer paths)
         s = z3.Solver()
         s.set("timeout", self.feas_timeout)
         for p in st.pc:
-            s.add(p)
+            if not self._quantified(p):
+                s.add(p)
         if cond is not None:
             s.add(cond)
         self.nfeas += 1
@@ -222,7 +268,9 @@ class SX:
                         hyps.append(self.eval_spec(e, st))
                     except Unsupported as ex:
                         self.warnings.append("hint %r not applicable at %s: %s" % (e, name, ex.msg))
-        self.obligations.append(Obligation(name, kind, hyps, claim, loc, props=props, note=note))
+        ob = Obligation(name, kind, hyps, claim, loc, props=props, note=note)
+        ob.st = st.fork() if self.keep_states else None
+        self.obligations.append(ob)
         st.assume(claim)
 
     def cover(self, st, name):
@@ -235,7 +283,7 @@ class SX:
     def truthy(self, v, st=None):
         """z3 Bool for python truthiness of v"""
         if isinstance(v, Ref):
-            content = st.heap[v.cell]
+            content = st.getcell(v.cell)
             if isinstance(content, dict):
                 return z3.BoolVal(True)  # plain objects are truthy
             return self.truthy(content, st)
@@ -280,7 +328,7 @@ class SX:
     def deref(self, v, st):
         """Ref to a mutable container -> its current immutable Val"""
         if isinstance(v, Ref):
-            c = st.heap[v.cell]
+            c = st.getcell(v.cell)
             if isinstance(c, dict):
                 return v
             return c
@@ -498,7 +546,7 @@ class SX:
         lifted = []
         ok = True
         for v in vals:
-            v2 = self.deref(v, st) if isinstance(v, Ref) and not isinstance(st.heap[v.cell], dict) else v
+            v2 = self.deref(v, st) if isinstance(v, Ref) and not isinstance(st.getcell(v.cell), dict) else v
             if isinstance(v2, Conc):
                 try:
                     v2 = self.lift(v2)
@@ -602,6 +650,20 @@ class SX:
 
     def ev_BoolOp(self, node, st):
         is_and = isinstance(node.op, ast.And)
+        if self.spec_mode:
+            # contract expressions are total and effect-free: no forking
+            vals = [self.ev1(v, st) for v in node.values]
+            vals = [self.lift(v) if isinstance(v, Conc) else v for v in vals]
+            if all(isinstance(v, Val) and isinstance(v.ty, V._Bool) for v in vals):
+                ts = [v.term for v in vals]
+                return [R(st, Val(V.Bool, z3.And(*ts) if is_and else z3.Or(*ts)))]
+            cur = vals[-1]
+            for v in reversed(vals[:-1]):
+                t = self.truthy(v, st)
+                cur = self.ite(t, cur, v, st) if is_and else self.ite(t, v, cur, st)
+                if cur is None:
+                    self.unsupported("and/or of incompatible types in a contract expression", node)
+            return [R(st, cur)]
 
         def go(i, st):
             out = []
@@ -778,7 +840,7 @@ class SX:
 
     def getattr(self, obj, attr, st, node=None):
         if isinstance(obj, Ref):
-            content = st.heap[obj.cell]
+            content = st.getcell(obj.cell)
             if isinstance(content, dict):
                 if attr in content:
                     return [R(st, content[attr])]
@@ -935,7 +997,30 @@ class SX:
         m = getattr(self, "ex_" + type(stmt).__name__, None)
         if m is None:
             self.unsupported("statement %s" % type(stmt).__name__, stmt)
+        sh = getattr(self.unit, "stmt_hints", None)
+        if sh and not self.spec_mode and isinstance(stmt, (ast.Expr, ast.Assign, ast.AugAssign)):
+            src = ast.unparse(stmt)
+            for (prefix, snaps, lemmas) in sh:
+                if src.startswith(prefix):
+                    return self._ex_with_hints(m, stmt, st, snaps, lemmas)
         return m(stmt, st)
+
+    def _ex_with_hints(self, m, stmt, st, snaps, lemmas):
+        """ghost code keyed by statement text: snapshot values before, assume proved-lemma instances after"""
+        pre = {}
+        self.spec_mode += 1
+        try:
+            for name, expr in snaps.items():
+                v = self.ev1(ast.parse(expr, mode="eval").body, st)
+                pre[name] = self.deref(v, st)
+        finally:
+            self.spec_mode -= 1
+        outs = m(stmt, st)
+        for o in outs:
+            if o.kind == "normal":
+                for e in lemmas:
+                    o.st.assume(self.eval_spec(e, o.st, pre))
+        return outs
 
     def _raise_outs(self, rs):
         return [Out("raise", r.st, r.exc) for r in rs if r.exc is not None]
@@ -1128,8 +1213,8 @@ class SX:
                     outs.append(Out("raise", r.st, r.exc))
                     continue
                 o = r.val
-                if isinstance(o, Ref) and isinstance(r.st.heap[o.cell], dict):
-                    r.st.heap[o.cell][tgt.attr] = val
+                if isinstance(o, Ref) and isinstance(r.st.getcell(o.cell), dict):
+                    r.st.getcell(o.cell)[tgt.attr] = val
                     outs.append(Out("normal", r.st))
                 else:
                     self.unsupported("attribute store on %r" % (o,), tgt)
@@ -1462,7 +1547,7 @@ class SX:
         self.reg.havoc_ghost_for_loop(self, body_stmts, st)
 
     def havoc_cell(self, cell, st):
-        c = st.heap[cell]
+        c = st.getcell(cell)
         if isinstance(c, dict):
             for a, v in list(c.items()):
                 if a in c.get("__frozen__", ()):  # immutable attributes declared by the sidecar
@@ -1470,7 +1555,7 @@ class SX:
                 if isinstance(v, Val) and not isinstance(v, (Ref, Func, Conc)) and v.ty is not None and not isinstance(v.ty, V._None):
                     c[a] = self.fresh(v.ty, "h_" + str(a), st)
         elif isinstance(c, Val):
-            st.heap[cell] = self.fresh(c.ty, "hc", st)
+            st.setcell(cell, self.fresh(c.ty, "hc", st))
         # ('emptylist',) markers stay: unknown type; becomes typed at first use
 
     def havoc_val(self, v, st, name):
